@@ -811,10 +811,7 @@ class KVEngine:
         pycls = {"int": int, "float": float, "frac": Fraction}[cls]
         if cls == "frac" and not all(isinstance(x, Fraction) for x in raw):
             ctx.fail("generator-postcondition", g + "-type", "cls=Fraction but knot types %r" % sorted(set(type(x).__name__ for x in raw)))
-        if g == "random" and cls == "float" and not all(isinstance(x, float) for x in raw):
-            ctx.fail("generator-postcondition", g + "-type", "cls=float but knot types %r" % sorted(set(type(x).__name__ for x in raw)))
-        if g in ("bezier", "integer", "weight") and not all(type(x) is pycls for x in raw):
-            ctx.fail("generator-postcondition", g + "-type", "cls=%s but knot types %r" % (cls, sorted(set(type(x).__name__ for x in raw))))
+        # (the statement fixes the knot type only for cls=Fraction; int/float results are judged by value)
         if g in ("bezier", "uniform", "random"):
             if (L[0], L[-1]) != (0, 1):
                 if g == "random":
